@@ -339,7 +339,14 @@ class CallMixin:
     if name == 'append':
       x = self.coerce(args[0], s.elem)
       n = s.len(t)
-      self.store_back(bm.lval, V(s, s.mk(z3.Store(s.arr(t), n, x.t), n + 1)))
+      newarr = z3.Store(s.arr(t), n, x.t)
+      self.store_back(bm.lval, V(s, s.mk(newarr, n + 1)))
+      if getattr(self.theory, 'append_frame_trigger', False) and not self.binders:
+        # redundant consequence of the array theory, triggered on the OLD list's elements, so that
+        # witnesses known for the old list are carried over to the new one by E-matching
+        p_ = z3.FreshConst(z3.IntSort(), 'p')
+        self.assume(z3.ForAll([p_], z3.Implies(z3.And(0 <= p_, p_ < n), z3.Select(newarr, p_) == z3.Select(s.arr(t), p_)),
+                              patterns=[z3.Select(s.arr(t), p_)]))
       return NONE
     if name == 'pop' and not args:
       n = s.len(t)
